@@ -3,7 +3,7 @@
 //! `c13 strings --seed S --n N [--exhaustive2]` prints one case per line:
 //!   `<hex input bytes> <hex write_string output> <hex darklua-read-back or "ERR">`
 
-use crate::util::{arg_u64, hex, Rng};
+use hutil::{arg_u64, hex, Rng};
 use darklua_core::nodes::StringExpression;
 use darklua_core::verif_hooks::generator_utils::write_string;
 
@@ -128,7 +128,9 @@ fn structured(rng: &mut Rng) -> Vec<u8> {
     out
 }
 
-pub fn main(args: &[String]) {
+fn main() {
+    let args: Vec<String> = std::env::args().skip(1).collect();
+    let args = &args[..];
     let sub = args.first().map(String::as_str).unwrap_or("");
     match sub {
         "strings" => {
